@@ -48,7 +48,9 @@ class History(object):
         kind = self.alphabet[E.choose("op%d" % i, len(self.alphabet))]
         E.reach("op:" + kind)
         f = getattr(self, "op_" + kind)
+        self.ref.created = []
         info = f("o%d" % i)
+        info["created"] = list(self.ref.created)
         info["kind"] = kind
         self.log.append(info)
         return kind, info
@@ -60,7 +62,7 @@ class History(object):
         crawled = E.flag(n + ".crawled")
         ok, rep = E.call("add_page", self.t.add_page, a.lru, crawled=crawled)
         E.check(ok, "add_page:refused")
-        new = 1 if self.ref.add_page(a, crawled) else 0
+        new = 1 if self.ref.insert(E, a, crawled) else 0
         return {"report": rep, "new_pages": new, "pages": [a]}
 
     def op_pages(self, n):
@@ -72,7 +74,7 @@ class History(object):
         E.check(ok, "add_pages:refused")
         new = 0
         for a in ops:
-            if self.ref.add_page(a, crawled):
+            if self.ref.insert(E, a, crawled):
                 new += 1
         return {"report": rep, "new_pages": new, "pages": ops}
 
@@ -89,9 +91,9 @@ class History(object):
         E.check(ok, "add_links:refused")
         new = 0
         for s, d in pairs:
-            if self.ref.add_page(s, False):
+            if self.ref.insert(E, s, False):
                 new += 1
-            if self.ref.add_page(d, False):
+            if self.ref.insert(E, d, False):
                 new += 1
             self.ref.add_link(s, d)
         return {"report": rep, "new_pages": new, "pairs": pairs}
@@ -120,10 +122,10 @@ class History(object):
         E.check(ok, "index_batch_crawl:refused")
         new = 0
         for s, ts in data:
-            if self.ref.add_page(s, True):
+            if self.ref.insert(E, s, True):
                 new += 1
             for x in ts:
-                if self.ref.add_page(x, False):
+                if self.ref.insert(E, x, False):
                     new += 1
                 self.ref.add_link(s, x)
         return {"report": rep, "new_pages": new, "data": data}
@@ -151,6 +153,9 @@ class History(object):
         return {"report": rep if ok else None, "ok": ok, "expected_ok": not taken, "weid": weid, "prefixes": ps, "new_pages": 0}
 
     def op_rule(self, n):
+        """add_webentity_creation_rule on a (possibly populated) index: modelled as re-inserting
+        every page beneath the anchor; webentity ids of the creations are taken from the
+        report (the order of re-insertion is the implementation's business)"""
         E = self.E
         p = self.prefix_operand(n + ".p")
         names = self.opts.get("rule_patterns", ["never"])
@@ -160,4 +165,122 @@ class History(object):
         E.check(ok, "add_rule:refused")
         self.ref.name(p)
         self.ref.rules.set(p.lru, rn)
+        self.install_model(p, rep)
         return {"report": rep, "new_pages": 0, "anchor": p, "rule": rn}
+
+    def install_model(self, anchor, rep):
+        from harness.common import is_stem_prefix
+        E = self.E
+        ref = self.ref
+        before = ref.last_id
+        for pl in ref.page_list():
+            if is_stem_prefix(anchor, pl):
+                ref.insert(E, pl, False)
+        if not ref.created or rep is None:
+            return
+        # rename the ids of these creations after the report (creation order is not modelled)
+        reported = [(weid, [E.wrap(x) for x in prefixes]) for weid, prefixes in rep.created_webentities.items()]
+        mapping = {}
+        for weid_m, valid in ref.created:
+            for weid_r, prefixes in reported:
+                hit = False
+                for x in prefixes:
+                    if same(x, valid[0].lru):
+                        hit = True
+                        break
+                if hit:
+                    mapping[weid_m] = weid_r
+                    break
+        if len(mapping) == len(ref.created) and sorted(mapping.values()) == sorted(mapping.keys()):
+            for i in range(len(ref.prefixes.v)):
+                if ref.prefixes.v[i] in mapping:
+                    ref.prefixes.v[i] = mapping[ref.prefixes.v[i]]
+            ref.created = [(mapping[w], v) for w, v in ref.created]
+
+    # -- explicit webentity edits -----------------------------------------------------
+    def alive(self):
+        """-> list of [weid, [prefix lru...]] currently in the model, in id order"""
+        out = {}
+        for lru, w in self.ref.prefixes.items():
+            out.setdefault(w, []).append(lru)
+        return [[w, out[w]] for w in sorted(out)]
+
+    def pick_we(self, name):
+        al = self.alive()
+        if not al:
+            return None
+        return al[self.E.choose(name, len(al))]
+
+    def op_delwe(self, n):
+        E = self.E
+        we = self.pick_we(n + ".we")
+        if we is None:
+            raise_infeasible(E)
+        weid, prefixes = we
+        ok, res = E.call("delete_webentity", self.t.delete_webentity, weid, list(prefixes))
+        E.check(ok, "delete_webentity:refused", "deleting a webentity with its own prefix list was refused")
+        for p in prefixes:
+            self.ref.prefixes.pop(p)
+        return {"new_pages": 0, "weid": weid}
+
+    def op_addprefix(self, n):
+        E = self.E
+        we = self.pick_we(n + ".we")
+        if we is None:
+            raise_infeasible(E)
+        p = self.prefix_operand(n + ".p")
+        ok, res = E.call("add_prefix_to_webentity", self.t.add_prefix_to_webentity, p.lru, we[0])
+        self.ref.name(p)
+        taken = self.ref.prefixes.has(p.lru)
+        E.check(ok == (not taken), "add_prefix:refusal", "attaching a prefix: accepted=%s, already attached=%s" % (ok, taken))
+        if not taken:
+            self.ref.prefixes.set(p.lru, we[0])
+        return {"new_pages": 0, "ok": ok, "prefix": p, "weid": we[0]}
+
+    def op_rmprefix(self, n):
+        """remove a prefix from the webentity that owns it (documented call shape)"""
+        E = self.E
+        we = self.pick_we(n + ".we")
+        if we is None:
+            raise_infeasible(E)
+        k = E.choose(n + ".k", len(we[1]))
+        lru = we[1][k]
+        ok, res = E.call("remove_prefix_from_webentity", self.t.remove_prefix_from_webentity, lru, we[0])
+        E.check(ok, "remove_prefix:refused", "removing a prefix from its own webentity was refused")
+        self.ref.prefixes.pop(lru)
+        return {"new_pages": 0, "weid": we[0]}
+
+    def op_rmforeign(self, n):
+        """remove_prefix_from_webentity(prefix, weid) with a prefix the webentity may not own"""
+        E = self.E
+        we = self.pick_we(n + ".we")
+        if we is None:
+            raise_infeasible(E)
+        p = self.prefix_operand(n + ".p")
+        ok, res = E.call("remove_prefix_from_webentity", self.t.remove_prefix_from_webentity, p.lru, we[0])
+        self.ref.name(p)
+        owner = self.ref.prefixes.get(p.lru)
+        E.check(ok == (owner == we[0]), "remove_prefix:refusal", "removal accepted=%s, owner=%s, asked=%s" % (ok, owner, we[0]))
+        if owner == we[0]:
+            self.ref.prefixes.pop(p.lru)
+        return {"new_pages": 0}
+
+    def op_moveprefix(self, n):
+        E = self.E
+        al = self.alive()
+        if len(al) < 2:
+            raise_infeasible(E)
+        src = al[E.choose(n + ".src", len(al))]
+        others = [w for w in al if w[0] != src[0]]
+        dst = others[E.choose(n + ".dst", len(others))]
+        k = E.choose(n + ".k", len(src[1]))
+        lru = src[1][k]
+        ok, res = E.call("move_prefix_to_webentity", self.t.move_prefix_to_webentity, lru, dst[0], src[0])
+        E.check(ok, "move_prefix:refused", "moving a prefix between two webentities was refused")
+        self.ref.prefixes.set(lru, dst[0])
+        return {"new_pages": 0}
+
+
+def raise_infeasible(E):
+    """the chosen operation has no operand in this state: not a history"""
+    E.assume(False)
